@@ -13,7 +13,7 @@ def NOT_REPRODUCED(msg=''):
     print('not reproduced', msg); sys.exit(0)
 
 
-p = Path(QuadraticBezier((-40+1j), (-40-40j), (-40+0j)), Line((-40+0j), (-40+1j)), QuadraticBezier((-40+1j), 0j, (-40+1j)))
+p = Path(QuadraticBezier((-40+1j), (-40-40j), (-40+0j)), QuadraticBezier((-40+0j), 0j, (-40+0j)), Line((-40+0j), (-40+1j)))
 opts = dict(useSandT=False, use_closed_attrib=True, rel=False)
 d = p.d(**opts)
 try:
